@@ -18,6 +18,7 @@ InstTy == "inst_ref<Object>"
 InstTyOf(c) == "inst_ref<" \o c \o ">"
 SetTyOf(c) == "inst_ref_set<" \o c \o ">"
 RelOps == CmpOps \cup {"and", "or"}
+IsSignal(inv) == inv.t = "icall" /\ RetTypes[inv.ns \o "::" \o inv.n] = "signal"
 EvTy == "inst<Event>"
 CreateEventStmts == {"create_ev_class", "create_ev_inst"}
 EventStmts == {"gen_class", "gen_inst"} \cup CreateEventStmts
@@ -97,7 +98,10 @@ ES(s, env, home) ==
                 env2 == IF root.t = "var" /\ root.n \notin DOMAIN env THEN Bind(env, root.n, rt) ELSE env
             IN [es |-> own \o EE(s.lhs, env2, home, TRUE) \o EE(s.e, env, home, TRUE), env |-> env2]
       \* the invocation of an invocation statement is a value as well (typed by what the callable returns)
-      [] s.t = "call" -> [es |-> own \o EE(s.inv, env, home, TRUE), env |-> env]
+      \* (a signal across a port has no value: RetTypes says "signal")
+      [] s.t = "call" -> [es |-> own \o EE(s.inv, env, home, ~IsSignal(s.inv)), env |-> env]
+      \* a signal sent to a target: the arguments and the target are values
+      [] s.t = "send_event" -> [es |-> own \o EPs(s.ps, env, home) \o EE(s.to, env, home, TRUE), env |-> env]
       [] s.t = "return" -> [es |-> own \o (IF s.has THEN EE(s.e, env, home, TRUE) ELSE <<>>), env |-> env]
       [] s.t = "if" -> [es |-> own \o EE(s.c, env, home, TRUE) \o EB(s.b, env, home).es \o EElifs(s.elifs, env, home)
                                 \o (IF s.haselse THEN EB(s.els, env, home).es ELSE <<>>), env |-> env]
@@ -231,6 +235,7 @@ PS(s) == CASE s.t = "assign" -> PE(s.lhs) \o PE(s.e)
            [] s.t \in {"select_from", "select_related"} -> IF s.haswhere THEN PE(s.w) ELSE <<>>
            \* the data items of an event specification succeed one another like the parameters of an invocation
            [] s.t \in EventStmts -> Chain(s.ev.data) \o PPs(s.ev.data)
+           [] s.t = "send_event" -> Chain(s.ps) \o PPs(s.ps) \o PE(s.to)
            [] OTHER -> <<>>
 ParamPairs(body) == PBk(body)
 =============================================================================
